@@ -151,48 +151,41 @@ Proof. exact (fun r d => conj (spans_exact r d) (conj (disabled_silent_others_un
 Print Assumptions disabled_scope_silent_others_unaffected.
 
 (* ---- "requesting the same name/version/schema/attributes returns the same tracer, meter or logger" (and a different one
-   for a different identity): the index printed for a request is the position of the first equal request *)
-Theorem same_identity_same_instance_tracer_meter : forall r d,
+   for a different identity): for every rule list and request sequence the index printed for a request is the position of
+   the first equal request.  Loggers carry scope attributes (the only ABI-v1 entry point that does): "the same attributes"
+   means the same finite map, i.e. the last value given for every key.  (F19, F19b, F21 repaired by 4364788 and 6b10326.) *)
+Theorem same_identity_same_instance : forall r d,
   (forall ops, ts_out (run_tr r d ops) = expected_indices scope_eqb ops) /\
-  (forall vs keys ops, fst (run_met r d vs keys ops) = expected_indices scope_eqb (gets_of ops)).
+  (forall vs keys ops, fst (run_met r d vs keys ops) = expected_indices scope_eqb (gets_of ops)) /\
+  (forall ops, ls_out (run_lg r d ops) = expected_indices lreq_eqb ops).
 Proof.
   exact (fun r d => conj (fun ops => proj1 (nats_eqb_eq _ _) (tracers_ok_lemma r d ops))
-                         (fun vs keys ops => proj1 (nats_eqb_eq _ _) (meters_ok_lemma r d vs keys ops))).
+                   (conj (fun vs keys ops => proj1 (nats_eqb_eq _ _) (meters_ok_lemma r d vs keys ops))
+                         (lg_indices r d))).
 Qed.
-Print Assumptions same_identity_same_instance_tracer_meter.
+Print Assumptions same_identity_same_instance.
 
-(* loggers (the only ABI-v1 entry point with scope attributes).  Full statement:
-     forall r d ops, ls_out (run_lg r d ops) = expected_indices lreq_eqb ops.
-   REFUTED twice by the faithful model: F19 (a repeated attribute key) and F21 (a scope the configurator disables). *)
-Theorem same_identity_same_instance_refuted :
-  (lreq_eqb f19_req f19_req = true /\ ls_out (run_lg [] true [f19_req; f19_req]) = [0; 1]%nat /\
-   same_ok [f19_req; f19_req] (ls_out (run_lg [] true [f19_req; f19_req])) = false) /\
-  (ls_out (run_lg [(CName (bs "a"), false)] true [f21_req; f21_req]) = [0; 1]%nat /\
-   same_ok [f21_req; f21_req] (ls_out (run_lg [(CName (bs "a"), false)] true [f21_req; f21_req])) = false).
-Proof. exact (conj same_identity_refuted_dup_key same_identity_refuted_disabled). Qed.
-Print Assumptions same_identity_same_instance_refuted.
+Theorem same_request_is_an_equivalence :
+  (forall a, lreq_eqb a a = true) /\ (forall a b, lreq_eqb a b = true -> lreq_eqb b a = true) /\
+  (forall a b c, lreq_eqb a b = true -> lreq_eqb b c = true -> lreq_eqb a c = true) /\
+  (forall a b, lreq_eqb a b = true <->
+     q_name a = q_name b /\ q_scope a = q_scope b /\ forall k, last_val k (q_attrs a) = last_val k (q_attrs b)).
+Proof. exact (conj lreq_eqb_refl (conj lreq_eqb_sym (conj lreq_eqb_trans lreq_eqb_iff))). Qed.
+Print Assumptions same_request_is_an_equivalence.
 
-Theorem same_identity_same_instance_partial : forall r d ops,
-  Forall (good_req r d) ops -> ls_out (run_lg r d ops) = expected_indices lreq_eqb ops.
-Proof. exact lg_indices. Qed.
-Print Assumptions same_identity_same_instance_partial.
+(* every exported log record carries the scope and the attributes it was requested with *)
+Theorem requested_scope_exact : forall r d ops, recs_ok r d ops (ls_recs (run_lg r d ops)) = true.
+Proof. exact recs_ok_lemma. Qed.
+Print Assumptions requested_scope_exact.
 
-(* F19b: a request with a repeated key is answered with another identity's logger *)
-Theorem requested_scope_exact_refuted :
-  lreq_eqb f19b_a f19b_b = false /\ ls_out (run_lg [] true [f19b_a; f19b_b]) = [0; 0]%nat /\
-  recs_ok [] true [f19b_a; f19b_b] (ls_recs (run_lg [] true [f19b_a; f19b_b])) = false.
-Proof. exact distinct_identity_refuted_dup_key. Qed.
-Print Assumptions requested_scope_exact_refuted.
-
-(* AttributeMap::EqualTo decides "the same attributes" exactly when neither side repeats a key *)
-Theorem equal_to_decides_same_attributes : forall a b,
-  nodup_keys a -> nodup_keys b -> equal_to (amap_of a) b = attrs_equiv a b.
+(* AttributeMap::EqualTo decides "the same attributes" for all attribute lists, repeated keys included *)
+Theorem equal_to_decides_same_attributes : forall a b, equal_to (amap_of a) b = attrs_equiv a b.
 Proof. exact equal_to_equiv. Qed.
 Print Assumptions equal_to_decides_same_attributes.
 
 (* ---- the SPEC checker that ./check runs on the implementation's observations accepts the model's output:
    for every name, predicate, tracer case; for units without an embedded NUL (else the variants differ); for metrics cases under [met_good] (the excluded regions are exactly the
-   open findings F14, F22, F23 and re-created instruments, C06); for logger cases under [good_req] (F19, F21) *)
+   open findings F14, F22, F23 and re-created instruments, C06); for every logger case *)
 Theorem model_meets_spec : forall c, case_good c -> spec_on c = [].
 Proof. exact model_meets_spec_lemma. Qed.
 Print Assumptions model_meets_spec.
